@@ -55,11 +55,11 @@ claim("C20", "runtime monitoring: BeginBlocker bracketed with full decoded bank-
 claim("C10", "runtime monitoring: reference model (stored header set + head) over generated header trees in random topological submission orders with field mutants; recorded main-net headers for the proof-of-work rule",
       "See notes/reports/C10.md. Rinkeby-mode trees (branching 1-3, depth <= 12, competing branches, re-submission, children of non-head headers) and single-field mutants; accept iff parent stored and the time/gas-limit/EIP-1559 rules hold (base fee computed independently of the repository); head = last accepted; consensus states on the head's ancestry = ancestors' roots; every valid child of any stored header accepted. Main-net headers with full ethash verification, seal-relevant mutants rejected.",
       "Difficulty rule for chain id 1 cannot be separated from the seal (valid PoW headers with another difficulty cannot be generated).")
-claim("C14", "runtime monitoring: differential replay of a recorded ABCI request stream in independent OS processes under an environment matrix + Go race detector pass with concurrent CheckTx/queries",
-      "A history exercising every teleport message, EVM hook and proposal type (all client proposals for TM/BSC/ETH/TSS, all aggregate proposals, param change, XIBC traffic with every ack outcome, conversions, staking/gov system contracts, vesting blocks, TM/BSC/ETH(Rinkeby + main-net PoW)/TSS updates) is recorded on a chain driven only through ABCI from genesis; 6 (quick) / 16 (thorough, 3 scenarios) child processes replay the tape under different GOMAXPROCS, GOGC, TMPDIR/HOME (incl. missing), TZ/locale, cwd, start delay and inter-block sleeps (fresh map seeds per process) and must report identical app hashes, begin/end-block results and per-tx code/data/gas/events. The same tape is replayed under -race while 4 goroutines issue CheckTx and queries; a race whose accessing frame is in teleport code is a violation.",
+claim("C14", "runtime monitoring: differential replay of a recorded ABCI request stream in independent OS processes under an environment matrix + wall-clock-tied live scenario replayed before/after its block time + strace observer of file-system/randomness/network calls during block execution + Go race detector pass with concurrent CheckTx/queries",
+      "A history exercising every teleport message, EVM hook and proposal type (all client proposals for TM/BSC/ETH/TSS, all aggregate proposals, param change, XIBC traffic with every ack outcome, conversions, staking/gov system contracts, vesting blocks, TM/BSC/ETH(Rinkeby + main-net PoW)/TSS updates) is recorded on a chain driven only through ABCI from genesis; 6 (quick) / 16 (thorough, 3 scenarios) child processes replay the tape under different GOMAXPROCS, GOGC, TMPDIR/HOME (incl. missing), TZ/locale, cwd, start delay and inter-block sleeps (fresh map seeds per process) and must report identical app hashes, begin/end-block results and per-tx code/data/gas/events. The same tape is replayed under -race while 4 goroutines issue CheckTx and queries; a race whose accessing frame is in teleport code is a violation. A second tape whose last block time is the recorder's wall clock + ~4 s carries client updates one second either side of every time rule (TM drift/expiry, ETH future bound/expiry, BSC expiry) and is replayed at once and after the wall clock passed that time (must agree). One replica runs under strace with private cwd/HOME/TMPDIR: any path looked up below them, any getrandom and any socket call between the 'blocks only' markers is a violation.",
       "The AST observation point of the property is outside this family. Races whose accesses are inside cosmos-sdk/ethermint/iavl are listed, not judged. ICS-20 receive is not part of the scenario.", "exploration")
 claim("C16", "runtime monitoring: differential oracle (middleware vs. wrapped transfer module on twin branches) + full-stack IBC ack-store check + conversion atomicity from balance deltas",
-      "See notes/reports/C16.md. Three teleport chains under ibc-go's testing package; ICS-20 packets over registered/unregistered denominations, enabled/disabled/paused/self-destructed pairs, malicious tokens, hostile receivers/amounts, native coins returning home, malformed data; middleware and wrapped module must return the same acknowledgement; after MsgRecvPacket the ack store holds exactly the transfer application's ack; receiver ends fully converted or untouched.",
+      "See notes/reports/C16.md. Three teleport chains under ibc-go's testing package; ICS-20 packets over registered/unregistered denominations, enabled/disabled/paused/self-destructed pairs, malicious tokens, hostile receivers/amounts, native coins returning home, malformed data; middleware and wrapped module must return the same acknowledgement (and, for transfers that left the chain, the same result and state on OnAcknowledgementPacket / OnTimeoutPacket); the honest transfers of the world construction are judged too; after MsgRecvPacket the ack store holds exactly the transfer application's ack; receiver ends fully converted or untouched.",
       "Receivers with 32-byte addresses are counted, not judged (statement does not pin the EVM account).")
 
 claim("C13", "runtime monitoring: differential oracle - raw store dumps before export vs. after InitGenesis into a fresh chain, the modules' own ValidateGenesis in between, re-export compared byte for byte",
@@ -70,8 +70,8 @@ claim("C18", "runtime monitoring: lifecycle model over all ordered client-type p
       "A valid proposal is not required to succeed (only counted).")
 
 claim("C15", "runtime monitoring: real governance end to end in crash-isolated child processes (MsgSubmitProposal incl. the SDK's submission-time dry run, MsgVote, clock jump, real EndBlock/BeginBlock) and InitChain of generated genesis files that pass ValidateGenesis; a panic or a dead child outside transaction recovery is the violation",
-      "See notes/reports/C15.md. Generated proposal contents for all 4 XIBC client proposals x 4 client-state types with degenerate-but-valid shapes and all 8 aggregate proposals, parameter values for rvesting/aggregate through param-change proposals, genesis states of the three modules; several proposals in flight so that state changes between submission and execution; every case is logged before execution, children that die are the witness. Contents whose submission dry run panics inside DeliverTx (recovered) are reported as latent, not as violations.",
-      "State-independent handler panics cannot reach EndBlock under cosmos-sdk v0.45.2 (the submission dry run refuses them); they are counted as latent.")
+      "See notes/reports/C15.md. Generated proposal contents for all 4 XIBC client proposals x 4 client-state types with degenerate-but-valid shapes and all 8 aggregate proposals, parameter values for rvesting/aggregate through param-change proposals, genesis states of the three modules; several proposals in flight so that state changes between submission and execution; every case is logged before execution, children that die are the witness. A content that passes stateless validation and makes its handler panic when invoked the way gov.EndBlocker invokes it (found behind the submission dry run) is a violation when the panic is raised under teleport's own code; panics entirely inside cosmos-sdk's parameter-change handler (unknown keys) are listed as latent.",
+      "Gov genesis import is not generated; the handler route stands in for it (no dry run there).")
 
 # optional per-agent additions are appended by later edits of this file
 exec(open('/verif/scripts/manifest_more.py').read()) if __import__('os').path.exists('/verif/scripts/manifest_more.py') else None
